@@ -497,8 +497,8 @@ def splice_fn(repo, file, item_path, sections, trait=None, nth=0, opts=(), canar
     # code of the function.  The receiver text must occur (else the anchor is lost).
     for dk in sorted(k for k in sections if k.startswith('desugar ')):
         want = [t.text for t in rs.tokenize(sections[dk]) if t.kind not in ('ws', 'comment', 'doc')]
-        if len(want) < 3 or want[-2] != '.' or want[-1] not in ('map', 'and_then', 'filter', 'any'):
-            raise AnchorLost('template: //@%s must end in .map / .and_then / .filter / .any' % dk)
+        if len(want) < 3 or want[-2] != '.' or want[-1] not in ('map', 'and_then', 'filter', 'any', 'find'):
+            raise AnchorLost('template: //@%s must end in .map / .and_then / .filter / .any / .find' % dk)
         method = want[-1]
         dk_words = dk.split()
         dk_id = dk_words[1]
@@ -540,6 +540,18 @@ def splice_fn(repo, file, item_path, sections, trait=None, nth=0, opts=(), canar
                 ed.replace(call_close, call_close, ' { cv_any%s = true; break; } } cv_any%s })' % (kk, kk))
                 rules['X2f-any'] = rules.get('X2f-any', 0) + 1
                 dropped.append('%s:%d Iterator::any with an inline closure written as the loop it abbreviates (X2f)' % (file, toks[body_ci[pm]].line))
+                continue
+            if method == 'find' and not on_result and sections.get('any_inv ' + dk_id) is not None:
+                # X2f (find): `ITER.find(|PAT| BODY)` written as the loop std defines it to be (Iterator::find: the first element for
+                # which the closure — called with a reference to it — is true).  Chosen over the Option::filter reading of `.find` by
+                # the presence of an `//@any_inv K` section
+                kk = re.sub(r'\W', '_', dk_id)
+                ed.ins_before(body_ci[p0], '({ let mut cv_any%s = None; %s let mut cv_ait%s = (' % (kk, sections.get('any_before ' + dk_id, '').strip(), kk))
+                ed.replace(body_ci[pm - 1], body_ci[q], ').into_iter(); while let Some(cv_item%s) = cv_ait%s.next() %s { %s if { let %s = &cv_item%s; ' % (
+                    kk, kk, sections.get('any_inv ' + dk_id, '').strip(), sections.get('any_body ' + dk_id, '').strip(), pat, kk))
+                ed.replace(call_close, call_close, ' } { cv_any%s = Some(cv_item%s); break; } } cv_any%s })' % (kk, kk, kk))
+                rules['X2f-find'] = rules.get('X2f-find', 0) + 1
+                dropped.append('%s:%d Iterator::find with an inline closure written as the loop it abbreviates (X2f)' % (file, toks[body_ci[pm]].line))
                 continue
             ed.ins_before(body_ci[p0], '(match (')
             if method == 'map' and on_result:
